@@ -20,7 +20,10 @@ Oracle (statement, clause by clause), evaluated on a recording proxy wrapped aro
 Sensitivity (quick tier, scratch copies; all caught):
   remove `need_delegate_close = False` before delegate.finish() ; call delegate.on_connection_close from
   HTTP1Connection._on_connection_close as well ; drop the `finally: delegate.on_close(self)` in the serving loop ;
-  skip on_connection_close when the body read raises StreamClosedError.
+  skip on_connection_close when the body read raises StreamClosedError ; body_timeout path clearing need_delegate_close ;
+  serving loop hanging after an application exception (_QuietException) ; _on_connection_close not resolving _finish_future.
+  Seeded: need_delegate_close cleared when the request is fully read although finish() was skipped (delegate answered
+  early) -> caught after adding delegates that respond in headers_received/data_received (neither_finish_nor_close).
 """
 import asyncio
 
